@@ -1573,15 +1573,16 @@ func ruleNamePath(rule string) ruleFn {
 
 func ruleReplaceSource(rule string) ruleFn {
 	return func(c *Ctx) {
-		c.Doc(rule, "ReplaceDisk unlinks its source after linking it to the target: the source must not be the live head (replacedisk {target: x, source: <head>} would delete the file all writes go to)")
+		c.Doc(rule, "ReplaceDisk unlinks its source after linking it to the target: the source must not be the live head (replacedisk {target: x, source: <head>} would delete the file all writes go to) nor the target itself (hardlinkDisk removes an existing target before it links the source to it)")
 		fn := c.Anchor(rule, fRep+"ReplaceDisk")
 		if fn == nil {
 			return
 		}
 		sites := append(CallsTo(fn, fRep+"hardlinkDisk"), CallsTo(fn, fRep+"rmDisk")...)
 		sites = append(sites, CallsTo(fn, fRep+"removeDiskNode")...)
-		c.Guard(rule, fn, sites, "replace", lockOrUnlock, atom("source is not the head", neAtom("$0.info.Head", "$2")))
-		c.Floor(rule, 3)
+		c.Guard(rule, fn, sites, "replace", lockOrUnlock, atom("source is not the head", neAtom("$0.info.Head", "$2")),
+			atom("source is not the target", neAtom("$1", "$2")))
+		c.Floor(rule, 6)
 	}
 }
 
@@ -1619,5 +1620,66 @@ func ruleChildrenForgotten(rule string) ruleFn {
 		if n < 2 {
 			c.Undecided(rule, "vacuity-floor", "", fmt.Sprintf("only %d deletions of the removed disk found", n))
 		}
+	}
+}
+
+func ruleRevertAncestry(rule string) ruleFn {
+	return func(c *Ctx) {
+		c.Doc(rule, "revertDisk writes the new chain (new head on top of the snapshot, volume.meta) only after it walked the snapshot's ancestry in the metadata files to its end: a snapshot left outside the live chain by an earlier revert may have lost an ancestor, and a revert to it would commit a chain that cannot be loaded")
+		fn := c.Anchor(rule, fRep+"revertDisk")
+		if fn == nil {
+			return
+		}
+		R := NewRenderer(fn)
+		// the walk: a string phi fed by the requested snapshot and by the Parent of a disk read
+		// from <name>.meta; "walked to its end" is the edge on which it is ""
+		var walk string
+		for _, ea := range allAtoms(fn, R) {
+			s := ea.Atom.String()
+			if strings.HasPrefix(s, `+"" -phi{`) && strings.HasSuffix(s, " ==0") && strings.Contains(s, ".Parent") && strings.Contains(s, "$1") {
+				walk = s
+			}
+		}
+		key := FnName(fn) + " | ancestry walked before the commit"
+		if walk == "" {
+			c.Bad(rule, key, c.P.Pos(fn.Pos()), "no walk over the parents of the snapshot (a phi of the requested name and of <disk>.Parent compared with \"\") found", nil)
+			return
+		}
+		term := strings.TrimSuffix(strings.TrimPrefix(walk, `+"" -`), " ==0")
+		sites := append(CallsTo(fn, fRep+"createNewHead"), CallsTo(fn, fRep+"rmDisk")...)
+		c.Guard(rule, fn, sites, "commit the new chain", nil, atom("every ancestor's metadata was found", walk))
+		// each step reads the metadata of the disk it is at, and goes on only when that worked
+		var reads []ssa.Instruction
+		for _, in := range CallsTo(fn, fRep+"unmarshalFile") {
+			if strings.Contains(callRender(R, in), "("+term+` + ".meta")`) {
+				reads = append(reads, in)
+			}
+		}
+		if len(reads) == 0 {
+			c.Bad(rule, key+" | reads <ancestor>.meta", c.P.Pos(fn.Pos()), "the walk does not read the metadata file of the disk it is at", nil)
+		} else {
+			c.OK(rule, key+" | reads <ancestor>.meta", c.P.InstrPos(reads[0]), callRender(R, reads[0]), false)
+			// the step to the parent happens only after the read succeeded
+			eachInstr(fn, func(in ssa.Instruction) {
+				p, ok := in.(*ssa.Phi)
+				if !ok || R.V(p) != term {
+					return
+				}
+				for i, e := range p.Edges {
+					if R.V(e) == "$1" {
+						continue
+					}
+					from := p.Block().Preds[i]
+					site := from.Instrs[len(from.Instrs)-1]
+					ws := Query{Fn: fn, IsSite: func(x ssa.Instruction) bool { return x == site }, GenEdge: successEdgesOfCall(fn, reads[0]), Kill: func(x ssa.Instruction) bool { return x == ssa.Instruction(p) }}.Run()
+					if len(ws) == 0 {
+						c.OK(rule, key+" | step after a successful read", c.P.InstrPos(site), "name = ancestor.Parent only behind the success edge of the read", true)
+					} else {
+						c.Bad(rule, key+" | step after a successful read", c.P.InstrPos(site), "the walk moves on although the metadata of the current ancestor could not be read", c.witness(ws[0]))
+					}
+				}
+			})
+		}
+		c.Floor(rule, 4)
 	}
 }
